@@ -35,6 +35,17 @@ Proof. exact iq1_strict_mono. Qed.
 Theorem C12_minimum_is_tight : inverse_quant 1 5 = inverse_quant 1 6.
 Proof. exact (proj1 iq1_not_mono_below_7). Qed.
 
+(* what the lossless-quantisation test case relies on: choosing
+   qindex = (largest quantisation-matrix entry, over ALL subbands) + MINIMUM_DISTINCT_QINDEX, every subband is
+   dequantised at an effective index max(qindex - entry, 0) >= MINIMUM_DISTINCT_QINDEX and different matrix
+   entries dequantise 1 to different values -- for any matrix, of any size *)
+Theorem C12_lossless_test_case_indices_distinct : forall vmax v1 v2 : Z,
+  0 <= v1 <= vmax -> 0 <= v2 <= vmax -> v1 <> v2 ->
+  let q := vmax + MINIMUM_DISTINCT_QINDEX in
+  MINIMUM_DISTINCT_QINDEX <= Z.max (q - v1) 0 /\ MINIMUM_DISTINCT_QINDEX <= Z.max (q - v2) 0 /\
+  inverse_quant 1 (Z.max (q - v1) 0) <> inverse_quant 1 (Z.max (q - v2) 0).
+Proof. exact (fun vmax v1 v2 => distinct_for_matrix MINIMUM_DISTINCT_QINDEX vmax v1 v2 ltac:(vm_compute; discriminate)). Qed.
+
 (* non-vacuity: concrete instances *)
 Example C12_example : inverse_quant (forward_quant (-1000) 23) 23 = -995 /\ quant_factor 23 = 215.
 Proof. vm_compute. split; reflexivity. Qed.
